@@ -23,6 +23,9 @@ class Engine:
     mode = 'lia'
     sink = None          # callable(cond: z3 Bool, what: str) or None
     axioms = []          # global facts (true in every state)
+    guards = []          # conditions under which the code being evaluated is reached
+    concrete = False     # judging a concrete run: bounded quantifiers are expanded, not handed to z3
+    size_hints = []      # callables bound -> z3 Bool: 'every input size <= bound' (to get small counter-models)
     _n = 0
 
     @classmethod
@@ -30,6 +33,9 @@ class Engine:
         cls.mode = mode
         cls.sink = None
         cls.axioms = []
+        cls.guards = []
+        cls.size_hints = []
+        cls.concrete = False
         cls._n = 0
 
     @classmethod
@@ -40,7 +46,26 @@ class Engine:
     @classmethod
     def side(cls, cond, what):
         if cls.sink is not None:
+            if cls.guards:
+                cond = z3.Implies(z3.And(*cls.guards), cond)
             cls.sink(cond, what)
+
+
+class guarded:
+    """Side conditions raised inside the block only need to hold when `cond` does."""
+    def __init__(self, cond):
+        self.cond = cond
+
+    def __enter__(self):
+        if not isinstance(self.cond, bool):
+            Engine.guards.append(tobool(self.cond))
+        elif not self.cond:
+            Engine.guards.append(z3.BoolVal(False))
+        else:
+            Engine.guards.append(z3.BoolVal(True))
+
+    def __exit__(self, *a):
+        Engine.guards.pop()
 
 
 E = Engine
@@ -50,11 +75,23 @@ def isort():
     return z3.IntSort() if E.mode == 'lia' else z3.BitVecSort(WIDTH)
 
 
+_CONSTS = {}
+
+
 def iconst(n):
+    key = (E.mode, n)
+    r = _CONSTS.get(key)
+    if r is not None:
+        return r
     if E.mode == 'lia':
-        return z3.IntVal(n)
-    assert -(1 << (WIDTH - 1)) <= n < (1 << (WIDTH - 1)), 'constant %r out of BV range' % n
-    return z3.BitVecVal(n, WIDTH)
+        r = z3.IntVal(n)
+    else:
+        if not -(1 << (WIDTH - 1)) <= n < (1 << (WIDTH - 1)):
+            raise SymErr('constant %r does not fit the %d-bit encoding' % (n, WIDTH))
+        r = z3.BitVecVal(n, WIDTH)
+    if len(_CONSTS) < 200000:
+        _CONSTS[key] = r
+    return r
 
 
 def ivar(name):
@@ -230,12 +267,14 @@ def _arith(op, a, b):
         if op == 'mul':
             return a * b
         if op == 'div':
-            E.side(b != 0, 'ZeroDivisionError')
+            if cb is None or cb == 0:
+                E.side(b != 0, 'ZeroDivisionError')
             if cb is not None and cb > 0:
                 return a / b          # z3 Int div: floor for positive divisor
             return _floordiv_lia(a, b)
         if op == 'mod':
-            E.side(b != 0, 'ZeroDivisionError')
+            if cb is None or cb == 0:
+                E.side(b != 0, 'ZeroDivisionError')
             if cb is not None and cb > 0:
                 return a % b
             return a - b * _floordiv_lia(a, b)
@@ -268,13 +307,19 @@ def _arith(op, a, b):
         E.side(z3.And(z3.BVMulNoOverflow(a, b, True), z3.BVMulNoUnderflow(a, b)), 'bv-nowrap mul')
         return a * b
     if op == 'div':
-        E.side(b != 0, 'ZeroDivisionError')
+        if cb is None or cb == 0:
+            E.side(b != 0, 'ZeroDivisionError')
+        if cb is not None and cb > 0 and (cb & (cb - 1)) == 0:
+            return a >> (cb.bit_length() - 1)      # floor division by 2^k == arithmetic shift (exact for all a)
         # bvsdiv truncates; python floors. exact for a>=0,b>0; else correct it.
         q = a / b
         r = z3.SRem(a, b)
         return z3.If(z3.And(r != 0, (r < 0) != (b < 0)), q - 1, q)
     if op == 'mod':
-        E.side(b != 0, 'ZeroDivisionError')
+        if cb is None or cb == 0:
+            E.side(b != 0, 'ZeroDivisionError')
+        if cb is not None and cb > 0 and (cb & (cb - 1)) == 0:
+            return a & iconst(cb - 1)              # python a % 2^k == a & (2^k - 1) for every int a
         return a % b              # bvsmod: sign follows divisor, as python
     if op == 'and': return a & b  # two's complement == python for in-range ints
     if op == 'or': return a | b
@@ -305,12 +350,13 @@ def _floordiv_lia(a, b):
 
 class SSeq:
     """Immutable functional sequence.  kind: 'bytes' | 'list' | 'str' | 'tuple'."""
-    __slots__ = ('n', 'get', 'kind')
+    __slots__ = ('n', 'get', 'kind', 'arr')
 
-    def __init__(self, n, get, kind='bytes'):
+    def __init__(self, n, get, kind='bytes', arr=None):
         self.n = n if isinstance(n, (SInt, int)) else SInt(n)
         self.get = get
         self.kind = kind
+        self.arr = arr          # z3 array term when this is a base (input) sequence: fast model read-out
 
     def __repr__(self):
         return 'SSeq<%s,len=%r>' % (self.kind, self.n)
@@ -356,7 +402,10 @@ class SSeq:
             if i < 0:
                 i += n
             return max(0, min(i, n))
-        i2 = ite(i < 0, i + n, i)
+        neg = i < 0
+        with guarded(neg):
+            wrapped = i + n
+        i2 = ite(neg, wrapped, i)
         return ite(i2 < 0, 0, ite(i2 > n, n, i2))
 
     def slice(self, lo, hi):
@@ -387,7 +436,7 @@ class SSeq:
         return self.slice(0, lo) + src + self.slice(hi, self.n)
 
     def with_kind(self, kind):
-        return SSeq(self.n, self.get, kind)
+        return SSeq(self.n, self.get, kind, self.arr)
 
 
 def _table_get(items):
@@ -439,7 +488,10 @@ def vite(c, fa, fb):
     """Lazy if-then-else over arbitrary values (thunks)."""
     if isinstance(c, bool):
         return fa() if c else fb()
-    a, b = fa(), fb()
+    with guarded(c):
+        a = fa()
+    with guarded(NOT(c)):
+        b = fb()
     return merge_values(c, a, b)
 
 
@@ -557,6 +609,15 @@ def fresh_bool(base='b'):
 
 def forall(lo, hi, body, base='k'):
     """forall k in [lo, hi): body(k)   (z3 quantifier; fine in goals and hypotheses)."""
+    if E.concrete and isinstance(lo, int) and isinstance(hi, int) and hi - lo <= 2000000:
+        acc = []
+        for i in range(lo, hi):
+            b = body(i)
+            if b is False:
+                return False
+            if b is not True:
+                acc.append(b)
+        return AND(*acc)
     k = ivar(E.fresh(base))
     old = E.sink
     conds = []
@@ -611,13 +672,14 @@ def byte_seq(name, n=None, kind='bytes'):
     if n is None:
         n = SInt(ivar(E.fresh(name + '.len')))
         E.axioms.append(n.t >= 0)
+        E.size_hints.append(lambda b, t=n.t: t <= b)
     if E.mode == 'bv':
         arr = z3.Array(E.fresh(name), z3.BitVecSort(WIDTH), z3.BitVecSort(8))
-        return SSeq(n, lambda k: SInt(z3.ZeroExt(WIDTH - 8, z3.Select(arr, toint(k)))), kind)
+        return SSeq(n, lambda k: SInt(z3.ZeroExt(WIDTH - 8, z3.Select(arr, toint(k)))), kind, arr)
     arr = z3.Array(E.fresh(name), z3.IntSort(), z3.IntSort())
     j = z3.Int(E.fresh('j'))
     E.axioms.append(z3.ForAll([j], z3.And(arr[j] >= 0, arr[j] <= 255), patterns=[arr[j]]))
-    return SSeq(n, lambda k: SInt(z3.Select(arr, toint(k))), kind)
+    return SSeq(n, lambda k: SInt(z3.Select(arr, toint(k))), kind, arr)
 
 
 def int_seq(name, n=None, kind='list'):
@@ -625,8 +687,9 @@ def int_seq(name, n=None, kind='list'):
     if n is None:
         n = SInt(ivar(E.fresh(name + '.len')))
         E.axioms.append(n.t >= 0)
+        E.size_hints.append(lambda b, t=n.t: t <= b)
     arr = z3.Array(E.fresh(name), isort(), isort())
-    return SSeq(n, lambda k: SInt(z3.Select(arr, toint(k))), kind)
+    return SSeq(n, lambda k: SInt(z3.Select(arr, toint(k))), kind, arr)
 
 
 def seq_of(n, fn, kind='list'):
